@@ -24,7 +24,9 @@
 (*   state    out    lines printed so far                                  *)
 (*            s      status: ok | brk (a Break looking for its loop) |     *)
 (*                   panic(msg) | vecbounds | trap(why) | impl(why) |      *)
-(*                   cut(budget / depth) | stuck(why) | unsupported(what)  *)
+(*                   cut(budget / depth) | stuck(why) | unsupported(what) |  *)
+(*                   malformed(why: the program calls a function that is   *)
+(*                   not defined)                                          *)
 (*            bv     the value carried by a Break                          *)
 (*            store  contents of every Vec allocated so far                *)
 (*            na     objects allocated so far (next identity)              *)
@@ -230,7 +232,7 @@ Builtin(name, vs, st) ==
          IF Len(vs) = 0 \/ vs[1].t # "v" THEN VStop(st, "stuck", name)
          ELSE LET id == vs[1].id
                   xs == st.store[id]
-              IN CASE name = "__Vec$length" -> VR(IntV(Len(xs)), st)
+              IN (CASE name = "__Vec$length" -> VR(IntV(Len(xs)), st)
                    [] name = "__Vec$push" -> VR(UnitV, [st EXCEPT !.store[id] = Append(@, vs[2])])
                    [] name = "__Vec$get" ->
                         IF vs[2].t # "i" THEN VStop(st, "stuck", name)
@@ -248,7 +250,7 @@ Builtin(name, vs, st) ==
                         IF vs[2].t # "v" THEN VStop(st, "stuck", name)
                         ELSE IF vs[2].id = id THEN VR(IntV(1), st)
                         ELSE LET e == VecEq(xs, st.store[vs[2].id]) IN
-                             IF e = "impl" THEN VStop(st, "impl", "streq-identity") ELSE VR(IntV(B2I(e = "t")), st)
+                             IF e = "impl" THEN VStop(st, "impl", "streq-identity") ELSE VR(IntV(B2I(e = "t")), st))
     [] OTHER -> VStop(st, "unsupported", name)
 
 -----------------------------------------------------------------------------
@@ -259,8 +261,8 @@ Block(ev, ss, env, st, d) ==
 \* function number f applied to args (a tuple): [v, st]
 CallFn(ev, f, args, st, d) ==
   IF d >= st.maxd THEN VStop(st, "cut", "depth")
-  ELSE IF f < 1 \/ f > Len(st.p.fns) THEN VStop(st, "stuck", "no such function")
-  ELSE IF st.p.fns[f] = 0 THEN VStop(st, "stuck", "function absent from this build")
+  ELSE IF f < 1 \/ f > Len(st.p.fns) THEN VStop(st, "malformed", "reference to a function that no build defines")
+  ELSE IF st.p.fns[f] = 0 THEN VStop(st, "malformed", "call of a function that this build does not define")
   ELSE LET fn == st.p.lib[st.p.fns[f]] IN
        IF Len(args) # fn.np THEN VStop(st, "stuck", "arity")
        ELSE LET r == Block(ev, fn.b, args \o Undefs(fn.nv - fn.np), st, d + 1) IN
@@ -274,6 +276,7 @@ ExecCall(ev, s, env, st, d) ==
   LET args == Args(s.as, env)
       r == CASE s.f.k = "bi" -> Builtin(s.f.n, args, Mark(st, {s.f.n}))
              [] s.f.k = "fn" -> ev[[k |-> "call", f |-> s.f.i, args |-> args, st |-> st, d |-> d]]
+             [] s.f.k = "missing" -> VStop(st, "malformed", "call of undefined function " \o s.f.n)
              [] s.f.k = "var" ->
                   LET c == env[s.f.i] IN
                   IF c.t # "c" THEN VStop(st, "stuck", "call of a non-closure")
